@@ -242,7 +242,7 @@ func actionsDeep(stmts []ast.Stmt, prefix string) []string {
 }
 
 // extraGens: further Gen files, added as properties are built.
-func extraGens(root, st *pkg) []*genFile { return []*genFile{genRecv(root), genSession(root), genAuth(root, st), genComponent(root, st), genKeepalive(root)} }
+func extraGens(root, st *pkg) []*genFile { return []*genFile{genRecv(root), genSession(root), genAuth(root, st), genComponent(root, st), genKeepalive(root), genSupervisor(root)} }
 
 // assignsTo lists, in source order, the right-hand sides assigned to the selector `sel` (e.g. "t.isSecure") in fn,
 // interleaved with the calls named in `marks` (so that the order "Handshake, isSecure=false, VerifyHostname,
@@ -295,4 +295,55 @@ func genKeepalive(root *pkg) *genFile {
 	g.def("clientResume", "List String", leanStrList(fnActions(root.fn("Client", "Resume"))), "flattened actions of Client.Resume")
 	g.def("xmppPing", "List String", leanStrList(fnActions(root.fn("XMPPTransport", "Ping"))), "flattened actions of XMPPTransport.Ping")
 	return g
+}
+
+// funcLits returns the flattened actions of every function literal inside fn, in source order.
+func funcLits(fd *ast.FuncDecl) [][]string {
+	var out [][]string
+	if fd == nil {
+		return [][]string{{"<missing function>"}}
+	}
+	ast.Inspect(fd.Body, func(n ast.Node) bool {
+		if fl, ok := n.(*ast.FuncLit); ok {
+			out = append(out, actionsDeep(fl.Body.List, ""))
+			return false
+		}
+		return true
+	})
+	return out
+}
+
+func leanStrListList(xss [][]string) string {
+	var parts []string
+	for _, xs := range xss {
+		parts = append(parts, leanStrList(xs))
+	}
+	return "[" + strings.Join(parts, ",\n  ") + "]"
+}
+
+func genSupervisor(root *pkg) *genFile {
+	g := newGen("Supervisor")
+	g.def("connectFuncLits", "List (List String)", leanStrListList(funcLits(root.fn("Client", "connect"))), "function literals inside Client.connect (the clean-up goroutine after a failed negotiation)")
+	g.def("clientResume", "List String", leanStrList(fnActions(root.fn("Client", "Resume"))), "flattened actions of Client.Resume")
+	g.def("runHandler", "List (List String)", leanStrListList(funcLits(root.fn("StreamManager", "Run"))), "the event handler installed by StreamManager.Run")
+	g.def("smResume", "List String", leanStrList(fnActions(root.fn("StreamManager", "resume"))), "flattened actions of StreamManager.resume (the retry loop)")
+	g.def("smConnect", "List String", leanStrList(fnActions(root.fn("StreamManager", "connect"))), "flattened actions of StreamManager.connect")
+	g.def("smStop", "List String", leanStrList(fnActions(root.fn("StreamManager", "Stop"))), "flattened actions of StreamManager.Stop")
+	g.def("dialErrorPermanent", "List String", leanStrList(dialErrArgs(root.fn("XMPPTransport", "Connect"))), "second argument of the NewConnError call that wraps the dial error")
+	return g
+}
+
+// dialErrArgs: the `permanent` argument of NewConnError calls in fn, in source order.
+func dialErrArgs(fd *ast.FuncDecl) []string {
+	var out []string
+	if fd == nil {
+		return []string{"<missing function>"}
+	}
+	ast.Inspect(fd.Body, func(n ast.Node) bool {
+		if c, ok := n.(*ast.CallExpr); ok && exprString(c.Fun) == "NewConnError" && len(c.Args) == 2 {
+			out = append(out, exprString(c.Args[1]))
+		}
+		return true
+	})
+	return out
 }
